@@ -3,8 +3,9 @@
 package harness
 
 import (
+	"reflect"
+	"unsafe"
 	"context"
-	"errors"
 	"fmt"
 	"math/rand"
 	"os"
@@ -183,6 +184,77 @@ type memProvider struct {
 func (p *memProvider) JetStream() (leader.JetStreamContext, error) { return memJS{p.kv}, nil }
 func (p *memProvider) NATSConnection() *nats.Conn                 { return p.conn }
 
+// disconnectCB returns the handler registered with SetDisconnectHandler (nats.go has no getter for it), reading it under
+// the connection's own mutex as the client does.
+func disconnectCB(conn *nats.Conn) nats.ConnHandler {
+	mu := (*sync.RWMutex)(unsafe.Pointer(reflect.ValueOf(conn).Elem().FieldByName("mu").UnsafeAddr()))
+	mu.RLock()
+	defer mu.RUnlock()
+	return conn.Opts.DisconnectedCB
+}
+
+// runFlap: eight single-instance groups, each a leader most of the time; per group one goroutine delivers a disconnect
+// notification, waits for the grace period give or take 300 µs, and delivers another one.  Returns the number of cycles.
+func runFlap(rng *rand.Rand, dur time.Duration) int {
+	h := 20 * time.Millisecond
+	stop := make(chan struct{})
+	var wg sync.WaitGroup
+	var cycles atomic.Int64
+	var els []leader.Election
+	for g := 0; g < 8; g++ {
+		kv := newMemKV(rng.Int63())
+		conn := &nats.Conn{}
+		group := fmt.Sprintf("flap%d", g)
+		cfg := leader.ElectionConfig{Bucket: "b", Group: group, InstanceID: "i1", TTL: 3 * h, HeartbeatInterval: h,
+			DisconnectGracePeriod: 2 * h}
+		el, err := leader.NewElection(&memProvider{kv, conn}, cfg)
+		if err != nil {
+			continue
+		}
+		els = append(els, el)
+		_ = el.Start(context.Background())
+		r := rand.New(rand.NewSource(rng.Int63()))
+		wg.Add(1)
+		go func() {
+			defer wg.Done()
+			for {
+				select {
+				case <-stop:
+					return
+				default:
+				}
+				if !el.IsLeader() {
+					// (the store of this mode has no expiry: clear the record of the term that ended)
+					_ = kv.Delete(group)
+					time.Sleep(5 * time.Millisecond)
+					continue
+				}
+				cb := disconnectCB(conn)
+				if cb == nil {
+					time.Sleep(time.Millisecond)
+					continue
+				}
+				cb(conn)
+				time.Sleep(2*h + time.Duration(r.Intn(600)-300)*time.Microsecond)
+				cb(conn)
+				cycles.Add(1)
+				time.Sleep(time.Duration(r.Intn(5)) * time.Millisecond)
+				if rc := conn.ReconnectHandler(); rc != nil && r.Intn(2) == 0 {
+					rc(conn)
+				}
+			}
+		}()
+	}
+	time.Sleep(dur)
+	close(stop)
+	wg.Wait()
+	for _, el := range els {
+		_ = el.Stop()
+	}
+	time.Sleep(100 * time.Millisecond)
+	return int(cycles.Load())
+}
+
 // runRace drives the public API of several elections from concurrent goroutines in real time. The binary is built
 // with -race; the race detector's reports (GORACE log_path) are collected and normalised by bin/check.
 func runRace(rep *Report, rng *rand.Rand, n int, thorough bool) error {
@@ -194,6 +266,12 @@ func runRace(rep *Report, rng *rand.Rand, n int, thorough bool) error {
 	if thorough {
 		rounds = 3
 	}
+	// a third of the time goes to flapping connections: leaders of independent groups whose connection drops again right
+	// around the expiry of the grace period that the previous drop armed (timer callback vs. notification handler)
+	flapCalls := runFlap(rng, dur/3)
+	rep.Compared += flapCalls
+	rep.hit(fmt.Sprintf("flap-cycles:%d", flapCalls))
+	dur -= dur / 3
 	for round := 0; round < rounds; round++ {
 		kv := newMemKV(rng.Int63())
 		kv.slowWatch = (rep.Seed+int64(round))%2 == 0
@@ -306,8 +384,8 @@ func runRace(rep *Report, rng *rand.Rand, n int, thorough bool) error {
 			spawn(rng.Int63(), func(r *rand.Rand) {
 				switch r.Intn(3) {
 				case 0:
-					if cb := conn.DisconnectErrHandler(); cb != nil {
-						cb(conn, errors.New("boom"))
+					if cb := disconnectCB(conn); cb != nil {
+						cb(conn)
 					}
 				case 1:
 					if cb := conn.ReconnectHandler(); cb != nil {
